@@ -1,12 +1,14 @@
 (* Props/C15.v — vecdb: lazy vectors equal their defining formula through every read path.
    Statements only: each is closed by `exact` of a lemma proved in Lazy/*Proofs.v, followed by
    Print Assumptions.  Vocabulary: `ovals F idx` = the formula values at the indices of idx where
-   the formula is defined; `range_idx n from to` = the indices from .. min(to, n) - 1.
-   Full statements refuted by the faithful models are kept as `*_full` definitions (in the proof
-   files) with `*_refuted` theorems here.
-   Partial: LazyDeltaVec::read_sorted_into_at and the range / sorted reads of LazyAggVec are only
-   validated differentially (theorems named *_partial say what they cover). *)
-From Coq Require Import Sorting.Sorted.
+   the formula is defined; `range_idx n from to` = the indices from .. min(to, n) - 1; `map EV l` =
+   a stream of elements that all evaluate (none panics).
+   Everything is at full strength for the code as repaired by /repo commits 54a6dce, a89006f, da7dfea,
+   19edab9; there is no *_partial and no *_refuted theorem left.  Hypotheses: `wf_starts` (LazyDeltaVec:
+   monotone window starts with start <= h + 1 for DeltaSub — empty windows included — and start <= h
+   for DeltaChange; C15_delta_start_cap_needed shows the cap cannot be dropped) and, for the default
+   collect wrappers, len() * size_of::<T>() <= isize::MAX. *)
+From Coq Require Import Sorting.Sorted Sorting.Permutation.
 From Anydb Require Import Common.Base Lazy.LazyBase Lazy.LazyBaseProofs Lazy.LazyFrom Lazy.LazyFromProofs
   Lazy.LazyDelta Lazy.LazyDeltaProofs Lazy.LazyAgg Lazy.LazyAggProofs.
 
@@ -91,93 +93,126 @@ Theorem C15_from3_sorted : forall (A1 A2 A3 B : Type) (f : N -> A1 -> A2 -> A3 -
 Proof. exact (@f3_sorted_spec). Qed.
 Print Assumptions C15_from3_sorted.
 
-(* ---- LazyDeltaVec (DeltaSub on u64/i64/u32, DeltaChange on u32) ------------------------------------------
-   partial: read_sorted_into_at is not covered by a theorem *)
-Theorem C15_delta_range_partial : forall ovf t op src starts, wf_starts ovf op src starts -> forall from to,
+(* cursor().get over FromN vectors whose sources all govern the length, any index list *)
+Theorem C15_from1_cursor : forall (A B : Type) (f : N -> A -> B) s idx,
+  cursor_gets (f1_len s) (fun a b => Ok (f1_read_into f s a b)) cursor_new idx = Ok (map (F1 f s) idx).
+Proof. exact (@from1_cursor_spec). Qed.
+Print Assumptions C15_from1_cursor.
+Theorem C15_from2_cursor : forall (A1 A2 B : Type) (f : N -> A1 -> A2 -> B) s1 s2 idx,
+  len s1 <= usize_max -> len s2 <= usize_max ->
+  cursor_gets (f2_len true true s1 s2) (fun a b => Ok (f2_read_into f true true s1 s2 a b)) cursor_new idx
+  = Ok (map (F2 f s1 s2) idx).
+Proof. exact (@from2_cursor_spec). Qed.
+Print Assumptions C15_from2_cursor.
+Theorem C15_from3_cursor : forall (A1 A2 A3 B : Type) (f : N -> A1 -> A2 -> A3 -> B) s1 s2 s3 idx,
+  cursor_gets (f3_len true true true s1 s2 s3) (fun a b => Ok (f3_read_into f true true true s1 s2 s3 a b)) cursor_new idx
+  = Ok (map (F3 f s1 s2 s3) idx).
+Proof. exact (@from3_cursor_spec). Qed.
+Print Assumptions C15_from3_cursor.
+
+(* ---- LazyDeltaVec (DeltaSub on u64/i64/u32, DeltaChange on u32), with and without overflow checks ---- *)
+Theorem C15_delta_len : forall src starts, d_len src starts = N.min (len src) (len starts).
+Proof. exact (fun src starts => eq_refl). Qed.
+Print Assumptions C15_delta_len.
+Theorem C15_delta_range : forall ovf t op src starts, wf_starts op src starts -> forall from to,
   d_range ovf t op src starts from to
   = map EV (ovals (Dspec t op src starts) (range_idx (N.min (len src) (len starts)) from to)).
 Proof. exact delta_range_spec. Qed.
-Print Assumptions C15_delta_range_partial.
-Theorem C15_delta_range_no_panic : forall ovf t op src starts, wf_starts ovf op src starts -> forall from to,
+Print Assumptions C15_delta_range.
+Theorem C15_delta_range_no_panic : forall ovf t op src starts, wf_starts op src starts -> forall from to,
   run_all (d_range ovf t op src starts from to)
   = Ok (ovals (Dspec t op src starts) (range_idx (N.min (len src) (len starts)) from to)).
 Proof. exact delta_range_run. Qed.
 Print Assumptions C15_delta_range_no_panic.
-Theorem C15_delta_try_fold_early_exit : forall ovf t op src starts, wf_starts ovf op src starts -> forall from to k,
+Theorem C15_delta_try_fold_early_exit : forall ovf t op src starts, wf_starts op src starts -> forall from to k,
   run_stop k (d_try_fold ovf t op src starts from to)
   = Ok (take k (ovals (Dspec t op src starts) (range_idx (N.min (len src) (len starts)) from to)),
         k <? len (ovals (Dspec t op src starts) (range_idx (N.min (len src) (len starts)) from to))).
 Proof. exact delta_range_stop. Qed.
 Print Assumptions C15_delta_try_fold_early_exit.
-Theorem C15_delta_one : forall ovf t op src starts, wf_starts ovf op src starts -> forall i,
+Theorem C15_delta_one : forall ovf t op src starts, wf_starts op src starts -> forall i,
   d_one ovf t op src starts i = Ok (Dspec t op src starts i).
 Proof. exact delta_one_spec. Qed.
 Print Assumptions C15_delta_one.
-Theorem C15_delta_in_range : forall ovf t op src starts, wf_starts ovf op src starts -> forall i,
+(* read_sorted_into_at: any index list; and for EVERY arrangement of the reads (sort_unstable_by_key) *)
+Theorem C15_delta_sorted : forall ovf t op src starts, wf_starts op src starts -> forall idx,
+  d_sorted ovf t op src starts idx = Ok (ovals (Dspec t op src starts) idx).
+Proof. exact delta_sorted_spec. Qed.
+Print Assumptions C15_delta_sorted.
+Theorem C15_delta_sorted_any_order : forall ovf t op src starts idx reads rs,
+  wf_starts op src starts ->
+  d_reads op starts (N.min (len src) (len starts)) 0 idx = Some reads -> Permutation reads rs ->
+  d_sorted_with ovf t op src starts idx rs = Ok (ovals (Dspec t op src starts) idx).
+Proof. exact delta_sorted_any_order. Qed.
+Print Assumptions C15_delta_sorted_any_order.
+Theorem C15_delta_cursor : forall ovf t op src starts, wf_starts op src starts -> forall idx,
+  cursor_gets (d_len src starts) (fun f t' => run_all (d_read_into ovf t op src starts f t')) cursor_new idx
+  = Ok (map (Dspec t op src starts) idx).
+Proof. exact delta_cursor_spec. Qed.
+Print Assumptions C15_delta_cursor.
+Theorem C15_delta_in_range : forall t op src starts, wf_starts op src starts -> forall i,
   i < N.min (len src) (len starts) -> exists v, Dspec t op src starts i = Some v.
-Proof. exact Dspec_in_range. Qed.
+Proof. exact (fun t op src starts WF => Dspec_in_range false t op src starts WF). Qed.
 Print Assumptions C15_delta_in_range.
 Theorem C15_delta_out_of_range : forall t op src starts i,
   N.min (len src) (len starts) <= i -> Dspec t op src starts i = None.
 Proof. exact Dspec_out_of_range. Qed.
 Print Assumptions C15_delta_out_of_range.
-
-Theorem C15_delta_range_full_refuted : ~ delta_range_full.
-Proof. exact delta_range_full_refuted. Qed.
-Print Assumptions C15_delta_range_full_refuted.
-Theorem C15_delta_empty_window_refuted :
-  exists src starts from to,
-    mono_starts starts /\
-    run_all (d_range true U64 DSub src starts from to) = Panic /\
-    ovals (Dspec U64 DSub src starts) (range_idx (N.min (len src) (len starts)) from to) = [0%Z] /\
-    run_all (d_range false U64 DSub src starts from to) = Ok [0%Z].
-Proof. exact delta_empty_window_refuted. Qed.
-Print Assumptions C15_delta_empty_window_refuted.
-Theorem C15_delta_start_after_index_refuted :
+(* empty windows, overflow checks on or off *)
+Theorem C15_delta_empty_window : forall ovf, run_all (d_range ovf U64 DSub [5%Z] [1] 0 1) = Ok [0%Z].
+Proof. exact delta_empty_window. Qed.
+Print Assumptions C15_delta_empty_window.
+(* the cap on the window start is needed: monotone alone is not enough *)
+Theorem C15_delta_start_cap_needed :
   exists src starts,
-    mono_starts starts /\
+    mono_starts starts /\ ~ wf_starts DSub src starts /\
     run_all (d_range false U64 DSub src starts 0 1) = Panic /\
-    d_one false U64 DSub src starts 0 = Ok (Some 0%Z) /\
-    Dspec U64 DSub src starts 0 = Some 0%Z.
-Proof. exact delta_start_after_index_refuted. Qed.
-Print Assumptions C15_delta_start_after_index_refuted.
+    d_one false U64 DSub src starts 0 = Ok (Some 0%Z).
+Proof. exact delta_start_cap_needed. Qed.
+Print Assumptions C15_delta_start_cap_needed.
 
-(* ---- LazyAggVec<Sparse> -------------------------------------------------------------------------------------
-   partial: only collect_one_at is covered; range and sorted reads are validated differentially *)
-Theorem C15_agg_collect_one_partial : forall src mapping i,
-  wf_map src mapping -> a_one src mapping i = Ok (Aspec src mapping i).
+(* ---- LazyAggVec<Sparse>: ALL sources and ALL mappings (any length, past the source end, any order) ---- *)
+Theorem C15_agg_range : forall src mapping from to,
+  a_range src mapping from to = map EV (ovals (Aspec src mapping) (range_idx (a_len mapping) from to)).
+Proof. exact agg_range_spec. Qed.
+Print Assumptions C15_agg_range.
+Theorem C15_agg_range_no_panic : forall src mapping from to,
+  run_all (a_range src mapping from to) = Ok (ovals (Aspec src mapping) (range_idx (a_len mapping) from to)).
+Proof. exact agg_range_run. Qed.
+Print Assumptions C15_agg_range_no_panic.
+Theorem C15_agg_try_fold_early_exit : forall src mapping from to k,
+  run_stop k (a_try_fold_range src mapping from to)
+  = Ok (take k (ovals (Aspec src mapping) (range_idx (a_len mapping) from to)),
+        k <? len (ovals (Aspec src mapping) (range_idx (a_len mapping) from to))).
+Proof. exact agg_range_stop. Qed.
+Print Assumptions C15_agg_try_fold_early_exit.
+Theorem C15_agg_one : forall src mapping i, a_one src mapping i = Ok (Aspec src mapping i).
 Proof. exact agg_one_spec. Qed.
-Print Assumptions C15_agg_collect_one_partial.
+Print Assumptions C15_agg_one.
+Theorem C15_agg_sorted : forall src mapping idx, a_sorted src mapping idx = Ok (ovals (Aspec src mapping) idx).
+Proof. exact agg_sorted_spec. Qed.
+Print Assumptions C15_agg_sorted.
+Theorem C15_agg_cursor : forall src mapping idx,
+  cursor_gets (a_len mapping) (fun f t => run_all (a_read_into src mapping f t)) cursor_new idx
+  = Ok (map (Aspec src mapping) idx).
+Proof. exact agg_cursor_spec. Qed.
+Print Assumptions C15_agg_cursor.
 Theorem C15_agg_in_range : forall src mapping i, i < a_len mapping -> exists v, Aspec src mapping i = Some v.
 Proof. exact Aspec_in_range. Qed.
 Print Assumptions C15_agg_in_range.
 Theorem C15_agg_out_of_range : forall src mapping i, a_len mapping <= i -> Aspec src mapping i = None.
 Proof. exact Aspec_out_of_range. Qed.
 Print Assumptions C15_agg_out_of_range.
-Theorem C15_agg_range_full_refuted : ~ agg_range_full.
-Proof. exact agg_range_full_refuted. Qed.
-Print Assumptions C15_agg_range_full_refuted.
-Theorem C15_agg_one_full_refuted : ~ agg_one_full.
-Proof. exact agg_one_full_refuted. Qed.
-Print Assumptions C15_agg_one_full_refuted.
-Theorem C15_agg_mapping_past_end_refuted :
-  exists src mapping,
-    mono_map mapping /\
-    run_all (a_range src mapping 0 1) = Panic /\
-    a_sorted src mapping [0] = Panic /\
-    a_one src mapping 0 = Ok (Some None) /\
-    Aspec src mapping 0 = Some (Some 7%Z).
-Proof. exact agg_mapping_past_end_refuted. Qed.
-Print Assumptions C15_agg_mapping_past_end_refuted.
 
-(* ---- ReadableVec default wrappers ---------------------------------------------------------------------------- *)
-Theorem C15_collect_range_full_refuted : ~ collect_range_full.
-Proof. exact collect_range_full_refuted. Qed.
-Print Assumptions C15_collect_range_full_refuted.
-Theorem C15_collect_range : forall (T : Type) esz (rd : N -> N -> res unit (list T)) from to,
-  (to - from) * esz <= isize_max -> collect_range_at esz rd from to = rd from to.
+(* ---- ReadableVec default wrappers: every request is passed to read_into_at unchanged ------------------- *)
+Theorem C15_collect_range : forall (T : Type) esz vlen (rd : N -> N -> res unit (list T)) from to,
+  vlen * esz <= isize_max -> collect_range_at esz vlen rd from to = rd from to.
 Proof. exact (@collect_range_ok). Qed.
 Print Assumptions C15_collect_range.
+Theorem C15_collect_all : forall (T : Type) esz vlen (rd : N -> N -> res unit (list T)),
+  vlen * esz <= isize_max -> collect_all esz vlen rd = rd 0 vlen.
+Proof. exact (@collect_all_ok). Qed.
+Print Assumptions C15_collect_all.
 Theorem C15_collect_signed_range : forall (T : Type) esz vlen (rd : N -> N -> res unit (list T)) from to,
   vlen * esz <= isize_max ->
   exists f t', f <= vlen /\ t' <= vlen /\ collect_signed_range esz vlen rd from to = rd f t'.
